@@ -258,10 +258,18 @@ package server
 //@   call truncateToHW requires [fallback-only-on-error] ghost.leaderErr != nil
 //@   loop 1 invariant 0 <= i && (i > 0 ==> lastOffset == ghost.leaderAnswer && err == ghost.leaderErr)
 
-// the leader answers an epoch-offset request from its epoch cache for exactly the requested epoch
+// the leader answers an epoch-offset request from its epoch cache for exactly the requested epoch. The asker keeps
+// every offset up to and including the answer (truncateUncommitted above), and a later epoch is recorded by the offset
+// of its FIRST message (commitlog: epochBoundary), so for an epoch that is not the log's latest the answer is the
+// offset before the recorded start; for the latest epoch it is the log's newest offset
+//@ ghost var epochLookup int64
+//@ ghost var latestEpochOfLog uint64
 //@ func (*partition).handleLeaderOffsetRequest serves C02
 //@   requires p != nil && msg != nil
 //@   call LastOffsetForLeaderEpoch requires [requested-epoch] arg1 == req.LeaderEpoch
+//@   ghost after call LastOffsetForLeaderEpoch: ghost.epochLookup := ret0
+//@   ghost after call LastLeaderEpoch: ghost.latestEpochOfLog := ret0
+//@   call MarshalLeaderEpochOffsetResponse requires [last-offset-before-the-next-epoch] arg0 != nil && arg0.EndOffset == (req.LeaderEpoch < ghost.latestEpochOfLog ? ghost.epochLookup - 1 : ghost.epochLookup)
 
 // ---------------------------------------------------------------------------------------------
 // One active group subscription per partition (property C13)
